@@ -255,7 +255,7 @@ add('c18-benign-else-raises-tokenerror', 'C18', 'benign', [(PARSER, """         
                 raise TokenError(expression)
         Parenthesis(')')""")])
 add('c18-repair-summinus-class', 'C18', 'repair', [(OPERATOR, """(?P<sum_minus>[\\+\\s\\-]+)""", """(?P<sum_minus>[\\+ \\-]+)""")],
-    clears='formulas/tokens/operator.py::OperatorToken::sum_minus class admits 09,0a,0b,0c,0d')
+    clears='formulas/tokens/operator.py::OperatorToken::sum_minus class admits non-sign characters')
 add('c18-repair-intersect-name', 'C18', 'repair', [(OPERATOR, """    _re = regex.compile(r'^(?P<name>\\s)\\s*')""", """    _re = regex.compile(r'^(?P<name> )\\s*')""")],
     clears='formulas/parser.py::Parser.ast::escapes KeyError from formulas/tokens/operator.py::Operator.pred via Intersect')
 add('c18-repair-boundary-valueerror', 'C18', 'repair', [(BUILDER, """                self.dsp.add_function(**kw)
@@ -753,9 +753,54 @@ add('c01-benign-filters-harmless-swap', 'C01', 'benign', [(PARSER, """        Er
 add('c01-repair-unary-parenthesised', 'C01', 'repair', [(OPERATOR, """            expr = '{}{}'.format(name[1], *expr)""", """            expr = '({}{})'.format(name[1], *expr)""")],
     clears='formulas/tokens/operator.py::Operator.set_expr::unary rendering unparenthesised')
 add('c01-repair-intersect-space', 'C01', 'repair', [(OPERATOR, """    _re = regex.compile(r'^(?P<name>\\s)\\s*')""", """    _re = regex.compile(r'^(?P<name> )\\s*')""")],
-    clears='formulas/tokens/operator.py::Intersect::names without precedence 09,0a,0b,0c,0d')
+    clears='formulas/tokens/operator.py::Intersect::names without precedence')
 add('c01-repair-single-sign', 'C01', 'repair', [(OPERATOR, """(?P<sum_minus>[\\+\\s\\-]+)""", """(?P<sum_minus>[\\+\\-])""")],
     clears='formulas/tokens/operator.py::OperatorToken::sign runs folded into one operator')
+
+# ---------------------------------------------------------------- C04
+add('c04-maxrow-off-by-one', 'C04', 'break', [(OPERAND, """maxrow = 1048576""", """maxrow = 1048575""")], expect='C04.limits')
+add('c04-maxcol-xls', 'C04', 'break', [(OPERAND, """maxcol = 16384""", """maxcol = 256""")], expect='C04.limits')
+add('c04-build-cel-elides-first', 'C04', 'break', [(OPERAND, """    return c != _maxcol() and c or '', r != _maxrow() and r or ''""", """    return c != 'A' and c or '', r != _maxrow() and r or ''""")], expect='C04.limits')
+add('c04-default-r2-one', 'C04', 'break', [(OPERAND, """    dsp.add_data(data_id='r2', default_value=_maxrow(), initial_dist=100)""", """    dsp.add_data(data_id='r2', default_value='1', initial_dist=100)""")], expect='C04.limits')
+add('c04-group-renamed', 'C04', 'break', [(OPERAND, """(?>:R\\[(?P<rr2>[\\+-]?[1-9]\\d*)\\]C\\[(?P<rc2>[\\+-]?[1-9]\\d*)\\])?""", """(?>:R\\[(?P<rrow2>[\\+-]?[1-9]\\d*)\\]C\\[(?P<rc2>[\\+-]?[1-9]\\d*)\\])?""")], expect='C04.groups')
+add('c04-resolver-input-renamed', 'C04', 'break', [(OPERAND, """    dsp.add_function('relative2absolute', _sum, ['cc', 'rc2'], ['n2'])""", """    dsp.add_function('relative2absolute', _sum, ['cc', 'rcol2'], ['n2'])""")], expect='C04.groups')
+add('c04-v2-no-upper', 'C04', 'break', [(OPERAND, """def fast_range2parts_v2(r1, c1, r2, c2, sheet_id):
+    ref = _build_ref(c1, r1, c2, r2).upper()""", """def fast_range2parts_v2(r1, c1, r2, c2, sheet_id):
+    ref = _build_ref(c1, r1, c2, r2)""")], expect='C04.fast')
+add('c04-v5-bypasses-build-id', 'C04', 'break', [(OPERAND, """    ref = ref.upper()
+    return {'ref': ref, 'name': _build_id(ref, sheet_id)}""", """    ref = ref.upper()
+    return {'ref': ref, 'name': '%s!%s' % (sheet_id, ref)}""")], expect='C04.fast')
+add('c04-v3-n2-differs', 'C04', 'break', [(OPERAND, """def fast_range2parts_v3(r1, n1, sheet_id, anchor=''):
+    c1 = _index2col(n1)
+    ref = '{}{}{}'.format(*_build_cel(c1, r1), anchor).upper()
+    return {
+        'r1': r1, 'r2': r1, 'c1': c1, 'c2': c1, 'n1': n1, 'n2': n1, 'ref': ref,""", """def fast_range2parts_v3(r1, n1, sheet_id, anchor=''):
+    c1 = _index2col(n1)
+    ref = '{}{}{}'.format(*_build_cel(c1, r1), anchor).upper()
+    return {
+        'r1': r1, 'r2': r1, 'c1': c1, 'c2': c1, 'n1': n1, 'n2': n1 + 1, 'ref': ref,""")], expect='C04.fast')
+add('c04-v1-n1-not-converted', 'C04', 'break', [(OPERAND, """def fast_range2parts_v1(r1, c1, sheet_id, anchor=''):
+    n1 = _col2index(c1)""", """def fast_range2parts_v1(r1, c1, sheet_id, anchor=''):
+    n1 = ord(c1[-1]) - 64""")], expect='C04.fast')
+add('c04-general-ref-filter-dropped', 'C04', 'break', [(OPERAND, """    dsp.add_data(data_id='ref', filters=(str.upper,))""", """    dsp.add_data(data_id='ref')""")], expect='C04')
+add('c04-sheet-not-upper', 'C04', 'break', [(OPERAND, """    sheet = sheet.replace("''", "'").upper()""", """    sheet = sheet.replace("''", "'")""")], expect='C04.case')
+add('c04-names-not-upper', 'C04', 'break', [(EXCEL, """            ref = Ref(n.name.upper(), '=%s' % n.value, context).compile(""", """            ref = Ref(n.name, '=%s' % n.value, context).compile(""")], expect='C04.case')
+add('c04-never-quote', 'C04', 'break', [(OPERAND, """    elif ' ' in sheet:
+        sheet = "'%s'" % sheet""", """    elif '  ' in sheet:
+        sheet = "'%s'" % sheet""")], expect='C04.quote', may_error=True)
+add('c04-benign-fast-paths-reordered', 'C04', 'benign', [(OPERAND, """    for func in (fast_range2parts_v1, fast_range2parts_v2, fast_range2parts_v3,
+                 fast_range2parts_v4, fast_range2parts_v5):""", """    for func in (fast_range2parts_v2, fast_range2parts_v1, fast_range2parts_v4,
+                 fast_range2parts_v3, fast_range2parts_v5):""")])
+add('c04-benign-quote-also-dash', 'C04', 'benign', [(OPERAND, """    elif ' ' in sheet:
+        sheet = "'%s'" % sheet""", """    elif ' ' in sheet or '-' in sheet:
+        sheet = "'%s'" % sheet""")])
+add('c04-repair-quote-regex', 'C04', 'repair', [(OPERAND, """_re_build_id = regex.compile(r'^[0-9]+$')
+""", """_re_build_id = regex.compile(r'^[0-9]+$')
+_re_plain_sheet = regex.compile(r'^[^\\W\\d][\\w\\.]*$')
+"""), (OPERAND, """    elif ' ' in sheet:
+        sheet = "'%s'" % sheet""", """    elif not _re_plain_sheet.match(sheet):
+        sheet = "'%s'" % sheet.replace("'", "''")""")],
+    clears='formulas/tokens/operand.py::_build_sheet_id::quoting predicate weaker than the reader')
 
 if __name__ == '__main__':
     here = os.path.dirname(os.path.abspath(__file__))
